@@ -48,7 +48,7 @@ def generate(seed, tier):
         m = r.random()
         mi = r.choice([0, 0, 1, 1, 2])
         if m < 0.12:
-            ops.append({"op": "randomise", "m": mi, "pseed": P.s64(r), "scale": r.choice([0.1, 1.0, 5.0])})
+            ops.append({"op": "randomise", "m": mi, "pseed": P.s64(r), "scale": r.choice([0.1, 1.0, 5.0]), "special": r.random() < 0.25})
         elif m < 0.17:
             ops.append({"op": "reinit", "m": mi, "sub": P.s64(r)})
         elif m < 0.22:
@@ -68,7 +68,7 @@ def generate(seed, tier):
                 }
             ops.append(op)
         elif m < 0.66:
-            ops.append({"op": "save_reserved", "m": mi, "path": r.choice(PATHS), "key": r.choice(["rbm_am", "rbm_ph", "unitary_dict"])})
+            ops.append({"op": "save_reserved", "m": mi, "path": r.choice(PATHS), "key": r.choice(["rbm_am", "rbm_ph", "unitary_dict"]), "value": r.choice([1, 1337, None, 0, "", False])})
         elif m < 0.80:
             ops.append({"op": "load", "m": mi, "path": r.choice(PATHS)})
         elif m < 0.86:
@@ -240,6 +240,13 @@ def execute(plan):
                 bystanders_unchanged({prev.get("m"), prev.get("dst")} - {None}, f"op {j - 1} ({prev['op']})")
             if kind == "randomise":
                 randomise(models[op["m"]], op["pseed"], op["scale"])
+                if op.get("special"):
+                    # parameters are just doubles: subnormals, huge values, signed zeros have to survive a round trip bit for bit
+                    sv = [5e-324, -1e-310, 1.7e308, -0.0, 2.2250738585072014e-308]
+                    for net in models[op["m"]].networks:
+                        for qi, (_, p_) in enumerate(getattr(models[op["m"]], net).named_parameters()):
+                            if p_.numel():
+                                p_.data[(0,) * p_.dim()] = sv[qi % len(sv)]
                 trace.append("rand")
             elif kind == "reinit":
                 rng.stream(op["sub"])
@@ -258,8 +265,10 @@ def execute(plan):
                     continue  # no reference basis left: nothing legal to train on
                 dcfg = {"N": 3, "nv": c["nv"], "dseed": op["dseed"], "form": "tensor", "basis_mode": "mixed" if has_xyz else "allZ"}
                 # bases may only use unitaries the model holds NOW (a load may have replaced its dictionary)
-                if "unitary_dict" in st.__dict__ and "H" in st.unitary_dict:
+                customs = [k_ for k_ in st.__dict__.get("unitary_dict", {}) if k_ not in ("X", "Y", "Z", "Q", "R", "N")]
+                if customs and has_xyz:
                     dcfg["custom_unitary"] = True
+                    dcfg["custom_name"] = customs[0]
                 din, _, bases = build_data(dcfg, with_bases=c["type"] != "positive")
                 kw = {} if bases is None else {"input_bases": bases}
                 try:
@@ -354,7 +363,7 @@ def execute(plan):
                 pre = snap(st)
                 opens_before = len(disk.opens)
                 try:
-                    st.save(op["path"], {key: 1, "other": 2})
+                    st.save(op["path"], {key: op.get("value", 1), "other": 2})
                     run.violate("11-reserved", f"save accepted the reserved metadata key '{key}'", key=key, type=pre["type"])
                     files[op["path"]] = {"status": "indeterminate"}
                 except ValueError:
